@@ -287,6 +287,16 @@ func (c *fctx) forStmt(x *ast.ForStmt, rest []ast.Stmt, k *cont, n int) (string,
 	return b.String() + r, err
 }
 
+func sortStrings(xs []string) {
+	for i := range xs {
+		for j := i + 1; j < len(xs); j++ {
+			if xs[j] < xs[i] {
+				xs[i], xs[j] = xs[j], xs[i]
+			}
+		}
+	}
+}
+
 func prefixEach(p string, xs []string) string {
 	s := ""
 	for _, x := range xs {
@@ -356,6 +366,33 @@ func (g *golite) translate(cfg *fnCfg) (string, error) {
 	var ptrBinders []string
 	for i := 0; i < sig.Params().Len(); i++ {
 		o := sig.Params().At(i)
+		if ms, ok := cfg.ifaces[o.Name()]; ok {
+			if c.ifaceCb == nil {
+				c.ifaceCb = map[types.Object]map[string]string{}
+			}
+			c.ifaceCb[o] = map[string]string{}
+			var mnames []string
+			for mn := range ms {
+				mnames = append(mnames, mn)
+			}
+			sortStrings(mnames)
+			for _, mn := range mnames {
+				ln := o.Name() + mn
+				c.used[ln] = true
+				c.ifaceCb[o][mn] = ln
+				var ty string
+				switch ms[mn].kind {
+				case "state":
+					ty = "Pico.Dec.Dec → σ → Res (Pico.Dec.Dec × σ)"
+				case "recv1":
+					ty = "Pico.EncLow.Buf → Res (Pico.EncLow.Buf × Bool)"
+				default:
+					return "", fmt.Errorf("interface method kind %s", ms[mn].kind)
+				}
+				binders = append(binders, fmt.Sprintf("(%s : %s)", ln, ty))
+			}
+			continue
+		}
 		name := c.declare(o)
 		if cb, ok := cfg.callbacks[o.Name()]; ok {
 			c.cbs[o] = cb
@@ -431,7 +468,14 @@ func (g *golite) translate(cfg *fnCfg) (string, error) {
 		if len(c.pre) > 0 {
 			return "", fmt.Errorf("%s: a pure function contains a checked operation", cfg.goName)
 		}
-		return fmt.Sprintf("def %s %s : %s := %s\n", cfg.lean, strings.Join(binders, " "), c.res[0].lean, v.s), nil
+		rl := c.res[0].lean
+		if v.t.k == kBuf {
+			rl = v.t.lean
+		}
+		if cfg.extra != "" && len(binders) > 0 && binders[0] == cfg.extra {
+			binders = binders[1:]
+		}
+		return fmt.Sprintf("def %s %s : %s := %s\n", cfg.lean, strings.Join(binders, " "), rl, v.s), nil
 	}
 	rt := "Unit"
 	if len(resTypes) == 1 {
